@@ -556,7 +556,7 @@ func c20SpamLine(w *bufio.Writer, thr, unban int, interval int64, rulesNil bool,
 // every sequence over {e: event inside the interval, E: event a whole interval later,
 // n: isNewSource event, m: maintenance} up to length L, one source, small thresholds
 func genC20SpamExhaustive(w *bufio.Writer, tier string) {
-	maxLen := 6
+	maxLen := 7
 	cfgs := [][2]int{{1, 1}, {2, 1}, {2, 2}, {3, 2}, {2, 4}}
 	if tier == "thorough" {
 		maxLen = 8
@@ -642,9 +642,9 @@ func c20GenDefs(rng *hx.Rng, withRules bool) *c20Defs {
 }
 
 func genC20SpamRandom(w *bufio.Writer, rng *hx.Rng, tier string) {
-	n := 2500
+	n := 12000
 	if tier == "thorough" {
-		n = 60000
+		n = 150000
 	}
 	for i := 0; i < n; i++ {
 		rulesNil := rng.Chance(1, 2)
@@ -813,9 +813,9 @@ func genC20In(w *bufio.Writer, rng *hx.Rng, tier string) {
 		}
 	}
 	// structured JSON records around the limit
-	n := 350
+	n := 2500
 	if tier == "thorough" {
-		n = 7000
+		n = 15000
 	}
 	for i := 0; i < n; i++ {
 		max := []int{0, 1, 2, 5, 8, 16, 24, 40, 64}[rng.Intn(9)]
